@@ -43,6 +43,7 @@ macro_rules! ubody {
 ubody!(c02u, "u_c02.rs");
 ubody!(c03u, "u_c03.rs");
 ubody!(c19u, "u_c19.rs");
+ubody!(c20u, "u_c20.rs");
 pub mod c01;
 pub mod c02;
 pub mod c04;
@@ -81,5 +82,6 @@ pub fn all() -> Vec<Scenario> {
     c16::register(&mut v);
     c19u::register(&mut v);
     c19::register(&mut v);
+    c20u::register(&mut v);
     v
 }
